@@ -44,6 +44,12 @@ def unfold_contraction_generic_tuple(red_op, bin_op, reduced_vars, terms):
             )
             return Contraction(red_op, v.bin_op, reduced_vars, *new_terms)
 
+        # Pulling the reduction of v out over its siblings is capture-free only
+        # if no sibling mentions a variable bound in v (e.g. v may occur twice).
+        siblings = terms[:i] + terms[i + 1 :]
+        if v.reduced_vars and any(v.reduced_vars & t.input_vars for t in siblings):
+            continue
+
         if red_op in (v.red_op, ops.null) and (v.red_op, bin_op) in DISTRIBUTIVE_OPS:
             new_terms = (
                 terms[:i]
